@@ -74,6 +74,21 @@ def oracle(ctx, cases):
                     ctx.violation("the result of substitution rejects what it generates", result=safe_repr(r),
                                   generated=safe_repr(v), py_result=r, **info)
                     break
+            # … and through the plain public fake() (no scripted clock / uuid / random stand-ins in between)
+            import random as _random
+            _st = _random.getstate()
+            try:
+                from d42 import fake as _fake
+                gv = _fake(r)
+                if validate(r, gv).has_errors():
+                    ctx.violation("the result of substitution rejects what it generates", result=safe_repr(r), generated=safe_repr(gv),
+                                  via="d42.fake", py_result=r, **info)
+            except Exception as e:  # noqa: BLE001
+                if not isinstance(e, (ValueError, IndexError)):      # K2-K11 families are C01's business
+                    ctx.violation("the result of substitution cannot be generated from (%s)" % type(e).__name__, result=safe_repr(r),
+                                  via="d42.fake", exception=safe_repr(e), py_result=r, **info)
+            finally:
+                _random.setstate(_st)
             # idempotent
             try:
                 r2 = substitute(r, c.value)
@@ -91,7 +106,7 @@ def run(ctx):
         ctx.breakage("translation", "substitutor / from_native extraction failed (d42/utils/_from_native.py or the scalar "
                      "visit_* methods of d42/substitution/_substitutor.py no longer consist of the recognised idioms): " + msg)
     runner.prove(ctx, MODULE, THEOREMS, FILES)
-    cases = substcorr.batch(ctx, ctx.n(90, 700), customs=True) + substcorr.list_form_cases(ctx) + substcorr.open_dict_any_cases(ctx, ctx.n(150, 1500)) + substcorr.untyped_pair_cases(ctx) + substcorr.untyped_edge_cases(ctx) + substcorr.untyped_zoo_cases(ctx) + substcorr.subclass_and_degenerate_cases(ctx) + substcorr.special_key_subst_cases(ctx) + substcorr.list_ellipsis_position_cases(ctx) + substcorr.relaxed_marker_position_cases(ctx) + substcorr.list_window_cases(ctx) + substcorr.float_precision_cases(ctx) + substcorr.many_errors_cases(ctx) + substcorr.list_partial_dict_cases(ctx)
+    cases = substcorr.batch(ctx, ctx.n(90, 700), customs=True) + substcorr.list_form_cases(ctx) + substcorr.open_dict_any_cases(ctx, ctx.n(150, 1500)) + substcorr.untyped_pair_cases(ctx) + substcorr.untyped_edge_cases(ctx) + substcorr.untyped_zoo_cases(ctx) + substcorr.defaulting_dict_subst_cases(ctx) + substcorr.subclass_and_degenerate_cases(ctx) + substcorr.special_key_subst_cases(ctx) + substcorr.list_ellipsis_position_cases(ctx) + substcorr.relaxed_marker_position_cases(ctx) + substcorr.list_window_cases(ctx) + substcorr.float_precision_cases(ctx) + substcorr.many_errors_cases(ctx) + substcorr.list_partial_dict_cases(ctx)
     for c in cases:
         substcorr.run_real(c)
     ctx.count("skipped_unencodable", sum(1 for c in cases if c.skip))
